@@ -1852,6 +1852,35 @@ def s_input_names(E, tier):
     if wired != ['g:a']:
         E.viol('C10', 'access', f"top-level task with input 'a', tasks g:a (top level) and n::h:a (mounted): wired to {wired}; inside its own (empty) namespace the "
                'reference identifies g:a uniquely', 'top-level reference', key='top-level-reference')
+    # round 7: a registry answers by the names it holds NOW: lookups between registrations do not freeze an answer, and
+    # `in`, [] and .get agree after every step (histories of __setitem__ / get / __contains__ on the real InputTasks)
+    from taskchain.task import InputTasks
+    from contracts.names import resolvable, name_matches, less_nested
+    histories = [['ns1::g:x', '?x', 'ns2::g:x', '?x'], ['g:x', '?x', 'h:x', '?x', 'x', '?x'], ['n::a', '?a', '?n::a', 'm::a', '?a', '?m::a', 'a', '?a'],
+                 ['ns::g:x', '?g:x', '?x', 'ns::h:x', '?x', '?g:x', '?h:x']]
+    for hist in histories:
+        E.tried += 1
+        reg_, objs = InputTasks(), {}
+        for si, step in enumerate(hist):
+            if not step.startswith('?'):
+                objs[step] = object()
+                reg_[step] = objs[step]
+                continue
+            q = step[1:]
+            names_ = list(objs)
+            want_in = resolvable(q, names_)
+            M_ = [t for t in names_ if name_matches(q, t, True)]
+            want_obj = objs[[c for c in M_ if all(less_nested(c, t) for t in M_)][0]] if want_in else None
+            try:
+                got_obj = reg_[q]
+            except KeyError:
+                got_obj = None
+            got_in = q in reg_
+            if got_in != want_in or got_obj is not want_obj:
+                E.viol('C10', 'access', f"input registry after {hist[:si + 1]}: ('{q}' in registry) = {got_in}, registry['{q}'] "
+                       f"{'is the task registered as ' + [n for n, o in objs.items() if o is got_obj][0] if got_obj is not None else 'raises KeyError'}; "
+                       f"with names {names_} the query {'resolves' if want_in else 'does not resolve (no match or ambiguous)'}", hist, key='registry-history')
+                break
     # round 7: a dependant mounted under a namespace addresses its sibling by the short form also when the sibling's name (or group)
     # merely begins with the text of the namespace - with and without a same-named task at top level
     for twin in (False, True):
